@@ -38,13 +38,13 @@ def recipe(c: Check):
     st = c.run_driver("plugin", q(c.tier, 80, 800), shards=q(c.tier, 4, 16))
     if st and (c.cov.get("coq_counters") or {}).get("plugin"):
         cp = c.cov["coq_counters"]["plugin"]
-        for name in ("NH2H", "NH2HS", "NHS2H", "NHS2HS", "NPLUGUPGRADE"):
+        for name in ("NH2H", "NH2HS", "NHS2H", "NHS2HS", "NPLUGUPGRADE", "NAGED"):
             if cp.get(name, 0) <= 0:
                 c.broken.append(dict(kind="coverage", name="driver plugin never exercised %s" % name, detail=str(cp)))
     st = c.run_driver("sys", q(c.tier, 90, 600), shards=q(c.tier, 6, 16))
     if st and (c.cov.get("coq_counters") or {}).get("sys"):
         cs = c.cov["coq_counters"]["sys"]
-        for name in ("NSYSFWD", "NSYSCHAIN", "NSYSHS2H", "NSYSHS2HS", "NSYSERR504", "NSYSERR404", "NUPGRADE", "NCONNECT", "NKEEPPLAIN", "NKEEPCOMP", "NOVERLAP"):
+        for name in ("NSYSFWD", "NSYSCHAIN", "NSYSHS2H", "NSYSHS2HS", "NSYSERR504", "NSYSERR404", "NUPGRADE", "NCONNECT", "NKEEPPLAIN", "NKEEPCOMP", "NOVERLAP", "NBIGHEAD", "NLIMITED"):
             if cs.get(name, 0) <= 0:
                 c.broken.append(dict(kind="coverage", name="driver sys never exercised %s" % name, detail=str(cs)))
     # The recorded finding C02:plugin+compression:keepalive-second-request is emitted by the sys driver itself
